@@ -14,6 +14,12 @@ CLAIMED = {
          "symbolic execution of go/ssa + SMT; symbolic text bytes and operands, case-split program shapes", "DESIGN.md §6 C01"),
  "C13": ("Bounded symbolic execution of Lexer/Parser: (H) the lexer with every scalar of its state havocked (vHavoc) reads each text of <=2 (quick) / <=3 (thorough) symbolic bytes exactly like a fresh one - an inductive step over all parse histories; (second parse) the same through the API with an arbitrary first text; (K) text of 2..3 (4) symbolic bytes delivered whole vs cut at every position with the parser pausing in between; (L) the last token of a text is not lost.",
          "symbolic execution of go/ssa + SMT; havocked (arbitrary) lexer pre-state, regex cascade encoded as NFA terms over symbolic runes", "DESIGN.md §6 C13"),
+ "C02": ("Differential symbolic execution: programs from a bounded grammar (expressions of depth<=1 quick / <=2 thorough; every form with a nested expression in every operand position; 8 loop shapes with plain/labelled break/continue and symbolic bounds; 10 call shapes incl. variadic, recursion, apply, map, closures) run through the real Generator+VM and through a reference evaluator in the harness; value, error-ness and the trace of a host function registered through AddFunction are compared, operands symbolic so every control path of each shape is covered.",
+         "symbolic execution of go/ssa + SMT; differential against a reference evaluator, shapes case-split, operands and control paths solver-decided", "DESIGN.md §6 C02"),
+ "C04": ("The C02 program shapes evaluated form by form: after every successful evaluation the depths of the four VM stacks are asserted at rest on every control path (symbolic operands), evaluating \"\" afterwards returns nil, and one-at-a-time vs (begin ...) evaluation agree.",
+         "symbolic execution of go/ssa + SMT; stack-depth assertions on every solver-feasible control path", "DESIGN.md §6 C04"),
+ "C05": ("Failure injection with solver-chosen failure points: the k-th call of a host function fails (error return or Go panic) iff a symbolic Bool says so, for every k, in the C02 expression/loop/call shapes; a malformed special form at 16 evaluated positions. Asserted: the failure is reported, the four stacks are at rest, definitions completed before the failure are intact and nothing else leaked, follow-up evaluations work.",
+         "symbolic execution of go/ssa + SMT; symbolic failure plan (fail_k Bool per host call)", "DESIGN.md §6 C05"),
 }
 NA = {
  "C10": "record<->Go struct conversion is a reflect walk (runtime/unsafe code, no SSA to execute); a model of reflect faithful enough to judge it would itself be the thing under test",
